@@ -15,7 +15,7 @@ import warnings
 import common
 
 RULE = ("cases are (operation, family, size): operations fromdict, asdict, asdict_simplified, migration_matrices, in_generations, "
-        "to_ms, dumps(yaml, simplified), dumps(json, resolved), discrete_demographic_events; families islands (clique, one rate), ring, "
+        "to_ms, dumps(yaml, simplified), dumps(json, resolved), discrete_demographic_events; families islands (clique, one rate), star and clique with rates that change once, ring, "
         "path, star (one shared rate), ring with distinct rates, ancestry chain, admixture ladder, dense ancestry, many epochs, many pulses, two-rate clique-with-holes, "
         "binary split tree; sizes 2..12 step 2 (every family), 16, 24, 32 where the count stays under the budget; non-trivial = size "
         ">= 6; distinct by triple")
@@ -115,7 +115,26 @@ def families():
             ds.append(d)
         return dict(time_units="generations", demes=ds)
 
-    return {"ladder": ladder, "dense-ancestry": dense_ancestry, "islands": islands, "ring": ring, "ring-distinct": lambda n: ring(n, True), "path": path, "star": star,
+    def star_two_periods(n):
+        # every spoke sends migrants to the hub in two periods with different rates; the per-period totals are valid
+        # (0.6 and 0.5) but the rates summed over all time exceed 1
+        ms = []
+        for i in range(1, n):
+            w = 1 + 0.01 * i / n          # distinct rates: the simplification search (F15) is not what this family is about
+            ms += [dict(source="d%d" % i, dest="d0", rate=0.6 * w / max(n - 1, 1), end_time=50),
+                   dict(source="d%d" % i, dest="d0", rate=0.5 * w / max(n - 1, 1), start_time=50)]
+        return dict(time_units="generations", demes=demes_n(n), migrations=ms)
+
+    def clique_two_periods(n):
+        ms = []
+        for i in range(n):
+            for j in range(n):
+                if i != j:
+                    ms += [dict(source="d%d" % i, dest="d%d" % j, rate=0.6 / max(n - 1, 1), end_time=50),
+                           dict(source="d%d" % i, dest="d%d" % j, rate=0.5 / max(n - 1, 1), start_time=50)]
+        return dict(time_units="generations", demes=demes_n(n), migrations=ms)
+
+    return {"star-two-periods": star_two_periods, "clique-two-periods": clique_two_periods, "ladder": ladder, "dense-ancestry": dense_ancestry, "islands": islands, "ring": ring, "ring-distinct": lambda n: ring(n, True), "path": path, "star": star,
             "chain": chain, "epochs": epochs, "pulses": pulses, "holes": holes, "tree": tree}
 
 
@@ -172,14 +191,30 @@ def run(chk):
     table = {}
     for fname, mk in fams.items():
         graphs = {}
+        build_series = []
         for n in sizes:
             doc = mk(n)
-            try:
-                with warnings.catch_warnings():
-                    warnings.simplefilter("ignore")
-                    graphs[n] = (doc, demes.Graph.fromdict(doc))
-            except Exception as e:
+            # building the graph is itself a measured fromdict: a runaway resolution must not hang the check
+            box = {}
+
+            def build():
+                box["g"] = demes.Graph.fromdict(doc)
+            c, over = count(build)
+            if c is None:
                 chk.count("family_rejected_%s_%d" % (fname, n))
+                continue
+            build_series.append((n, c, over))
+            if over or "g" not in box:
+                break
+            graphs[n] = (doc, box["g"])
+        if build_series and build_series[-1][2]:
+            done = [x for x in build_series if not x[2]]
+            slope_done = (math.log(max(done[-1][1], 1) / max(done[-2][1], 1)) / math.log(done[-1][0] / done[-2][0])) if len(done) >= 2 else 99.0
+            if not (slope_done <= MAX_DEGREE and len(done) >= 2 and done[-1][0] >= 24):
+                chk.violation("cost:superpolynomial:fromdict:%s" % fname,
+                              "fromdict on family %s: exceeds %d executed lines at %d demes (growth exponent %.1f over the completed sizes)"
+                              % (fname, BUDGET, build_series[-1][0], slope_done),
+                              dict(operation="fromdict", family=fname, series=build_series, slope=round(slope_done, 2)))
         ops = {
             "fromdict": lambda d, g: demes.Graph.fromdict(d),
             "asdict": lambda d, g: g.asdict(),
